@@ -4,6 +4,20 @@ TRUST = ("Trusted: clang 14 parser/CFG/constant evaluator/record layout as expor
          "tables under tables/. ")
 
 CLAIMS = {
+    "C01": dict(
+        text="Static analysis, partial: E-ZONE (difference-bound abstract interpretation over clang CFGs of the "
+             "uninstantiated templates) proves every raw read of the template buffer and of value strings in the tag "
+             "scanner, attribute parsers, expression scanner, word finder, string utilities and number scanner in "
+             "bounds on every path, (pointer,length) arguments inside the buffer, no wrapped unsigned bound, and the "
+             "Finder protocol (offset_ <= length_ preserved; a reported match implies offset_ <= length_). Further "
+             "structural clauses (typed tag access, division guards, loop-item index, word tables) as listed in the "
+             "evidence. Decides necessary memory-safety/termination clauses for all inputs; not the tag-offset "
+             "data-structure invariants across parse->render.",
+        note=TRUST + "Buffer contracts in tables/contracts.py; tag grammar assumption for getValue's one-past read; "
+             "cursor+small constant does not overflow; by-reference parameters do not alias.",
+        technique="static analysis: difference-bound abstract interpretation + typestate + table checks over the "
+                  "exported clang AST/CFG",
+        ref="DESIGN.md section 4 C01"),
     "C05": dict(
         text="Static analysis, partial: difference-bound abstract interpretation (E-ZONE) over the clang CFG of the "
              "uninstantiated JSON parser, UnEscape and number scanner proves every raw read of the input buffer in "
